@@ -59,6 +59,9 @@ def generate(rng):
             scn['exit_gap_us'] = rng.choice([1, 1000])
     if tr == 'sock':
         scn['sock_timeout'] = rng.choice([None, 0.0, 7.5])
+        if rng.random() < 0.4:
+            # the application changes the socket's own timeout between reads: that value, not an older one, must survive
+            scn['sock_retime'] = [[rng.randint(1, 6), rng.choice([None, 0.0, 0.5, 3.0])] for _ in range(rng.randint(1, 2))]
     if rng.random() < 0.35:
         scn['tear'] = [rng.choice([0, 0, 1, 2, 5, 100]) for _ in range(rng.randint(1, 5))]
     if rng.random() < 0.25:
@@ -240,8 +243,14 @@ def _drain(r, scn):
     size = scn.get('size', 1)
     sock0 = r.sock.gettimeout() if r.sock is not None else None
     r.sock_bad = None
+    retime = dict((int(a), b) for a, b in scn.get('sock_retime', [])) if r.sock is not None else {}
+    ncalls = 0
     if mode == 'rnb':
         while True:
+            ncalls += 1
+            if ncalls in retime:
+                r.sock.settimeout(retime[ncalls])
+                sock0 = r.sock.gettimeout()
             try:
                 s = child.read_nonblocking(size, T)
             except EOF:
